@@ -1125,9 +1125,18 @@ func (e *Env) specCall(sf *SpecFn, n *CNode) Val {
 		v := e.expr(n.Args[i])
 		if len(v.t) > 60 && v.tuple == nil && v.cell == nil {
 			specLetCounter++
-			nm := fmt.Sprintf("|a!%d|", specLetCounter)
-			lets = append(lets, letb{nm, v.t})
-			v.t = nm
+			if !strings.Contains(v.t, "|q!") && !strings.Contains(v.t, "|a!") {
+				// a closed term (no bound variable): named by a constant, so that it can occur in quantifier patterns
+				// (a let would be expanded by the solver before patterns are checked)
+				nm := fmt.Sprintf("|sa!%d|", specLetCounter)
+				e.g.emit(fmt.Sprintf("(declare-const %s %s)", nm, e.sortOfVal(v)))
+				e.g.emit(fmt.Sprintf("(assert (= %s %s))", nm, v.t))
+				v.t = nm
+			} else {
+				nm := fmt.Sprintf("|a!%d|", specLetCounter)
+				lets = append(lets, letb{nm, v.t})
+				v.t = nm
+			}
 		}
 		s.bound[p] = v
 	}
